@@ -201,7 +201,7 @@ void worker_main(int fd) {
 // ======================================================================================================
 struct Worker { pid_t pid = -1; int fd = -1; bool dead = false; bool busy = false; string rbuf; };
 struct Step { int worker = 0; string cmd; vector<long> args; string sarg; int kill = 0, pause = 0; };
-struct Case { string prop = "C06"; vector<Step> steps; };
+struct Case { string prop = "C06"; vector<Step> steps; int pad = 0; /* names are <unique prefix> + pad x 'n' + <digit>: long names that differ only in their last character */ };
 
 string step_text(const Step &s) {
   std::ostringstream os; os << s.worker << ' ' << s.cmd;
@@ -211,11 +211,11 @@ string step_text(const Step &s) {
   if (s.pause) os << " pause=" << s.pause;
   return os.str();
 }
-string to_text(const Case &c) { std::ostringstream os; os << "ipcx " << c.prop << "\n"; for (auto &s : c.steps) os << step_text(s) << "\n"; return os.str(); }
+string to_text(const Case &c) { std::ostringstream os; os << "ipcx " << c.prop; if (c.pad) os << " pad=" << c.pad; os << "\n"; for (auto &s : c.steps) os << step_text(s) << "\n"; return os.str(); }
 bool from_text(const string &t, Case &c) {
   for (auto &l : vl::split_lines(t)) {
     auto w = vl::split_ws(l); if (w.empty() || w[0][0] == '#') continue;
-    if (w[0] == "ipcx") { if (w.size() > 1) c.prop = w[1]; continue; }
+    if (w[0] == "ipcx") { if (w.size() > 1) c.prop = w[1]; for (size_t i = 2; i < w.size(); i++) if (w[i].rfind("pad=", 0) == 0) c.pad = atoi(w[i].c_str() + 4); continue; }
     Step s; s.worker = atoi(w[0].c_str()); if (w.size() < 2) continue; s.cmd = w[1];
     for (size_t i = 2; i < w.size(); i++) {
       if (w[i].rfind("kill=", 0) == 0) s.kill = atoi(w[i].c_str() + 5);
@@ -331,7 +331,7 @@ Outcome run_c06(const Case &c, bool thorough) {
       if (v != gens[g].value) co.fail("counter", string(when) + ": semaphore counter is " + std::to_string(v) + ", model " + std::to_string(gens[g].value));
     }
   };
-  auto fullname = [&](long n) { string s = co.uniq + std::to_string(n % 3); co.names_used.insert(s); return s; };
+  auto fullname = [&](long n) { string s = co.uniq + string((size_t)c.pad, 'n') + std::to_string(n % 3); co.names_used.insert(s); return s; };
   int step_no = 0;
   for (auto &s : c.steps) {
     if (co.bad()) break;
@@ -475,7 +475,7 @@ Outcome run_c07(const Case &c, bool thorough) {
   vector<ShmGen> gens; std::map<string, int> name_gen; std::map<std::pair<int, int>, ShmHandle> handles; std::map<std::pair<int, int>, string> hname;
   bool cross_read = false, race_both = false, killed_any = false;
   static const size_t sizes[] = {1, 7, 100, 4095, 4096, 4097, 8192, 65537};
-  auto fullname = [&](long n) { string s = co.uniq + std::to_string(n % 2); co.names_used.insert(s); return s; };
+  auto fullname = [&](long n) { string s = co.uniq + string((size_t)c.pad, 'n') + std::to_string(n % 2); co.names_used.insert(s); return s; };
   auto lock_holder_cleanup = [&]() {};
   (void)lock_holder_cleanup;
   std::map<int, std::pair<int, int>> lock_held; // gen -> handle holding the lock
@@ -684,7 +684,7 @@ Outcome run_c08(const Case &c, bool thorough) {
   Coord co; char u[64]; { struct timespec ts; clock_gettime(CLOCK_MONOTONIC, &ts); snprintf(u, sizeof u, "v8_%d_%lx_", (int)getpid(), (long)(ts.tv_sec * 1000000000L + ts.tv_nsec)); } co.uniq = u;  /* pid + time: a recycled pid must never meet a stale name of an interrupted run */
   co.hang_is_verdict = true; co.case_text = to_text(c); co.prop = "C08";
   int P = 3; co.spawn(P);
-  string name = co.uniq + "b"; co.names_used.insert(name);
+  string name = co.uniq + string((size_t)c.pad, 'n') + "b"; co.names_used.insert(name);
   size_t S = 64;
   for (auto &s : c.steps) if (s.cmd == "cap" && !s.args.empty()) { static const size_t caps[] = {1, 2, 3, 7, 8, 64, 300, 1024}; S = caps[s.args[0] % 8]; break; }
   std::deque<unsigned char> model;
@@ -809,8 +809,8 @@ rc::Gen<Step> genStep(const string &prop, bool kills) {
 }
 rc::Gen<Case> genCase(const string &prop, bool kills) {
   using namespace rc;
-  return gen::map(gen::tuple(gen::resize(18, gen::container<vector<Step>>(genStep(prop, kills))), rng(0, 8)), [prop](const std::tuple<vector<Step>, int> &t) {
-    Case c; c.prop = prop; c.steps = std::get<0>(t);
+  return gen::map(gen::tuple(gen::resize(18, gen::container<vector<Step>>(genStep(prop, kills))), rng(0, 8), gen::weightedElement<int>({{6, 0}, {1, 30}, {1, 45}, {1, 100}, {1, 400}})), [prop](const std::tuple<vector<Step>, int, int> &t) {
+    Case c; c.prop = prop; c.steps = std::get<0>(t); c.pad = std::get<2>(t);
     if (prop == "C08") { Step s; s.cmd = "cap"; s.args = {std::get<1>(t)}; c.steps.insert(c.steps.begin(), s); }
     return c; });
 }
